@@ -234,20 +234,23 @@ PROPS["C16"] = dict(
 
 PROPS["C08"] = dict(
     level="proof",
-    verus=["c08_wire", "c08_wiring", "c08_shape"],
+    verus=["c08_wire", "c08_wiring", "c08_shape", "c08_legacy"],
+    witness=["c08_permissions.rs"],
     labels=["C08."] + MASK,
     kani=[KaniSet("src/data_format/v0.rs", "c08_wire.rs", [
         Harness("c08_wire_scalars", "C08.wire.scalars_twin", "C", "mask (2^32), id (2^64) and both domain unions fully symbolic through the real From impls; loop-free"),
     ])],
     trusted=["serde / rmp-serde: a struct is written as the array of its fields and read back position by position (wire step)",
              "NetworkFilterList <-> v0 list form: per-rule conversion applied to every bucket (views equal)",
-             "LegacyHostnameRuleDb conversions both ways (Entry API, HashMap::into_iter): NOT under contract - in particular scriptlet permissions are rebuilt as default there",
+             "legacy cosmetic rule db (unit c08_legacy): R7 lifts of `db.entry(k).and_modify(push e).or_insert_with(vec![e])` = append under the key, of the Style/UnhideStyle pushes (they do not touch the four projections), R5 lift of HashMap::into_iter (the entries, each key once); HostnameFilterBin::insert's contract is proved in c16_store; vstd's model of HashMap::iter",
+             "the wiring unit abstracts the legacy conversion to 'the core part survives' (core = hide/unhide/uninject buckets and injection texts, as proved in c08_legacy); the two units are not composed mechanically",
              "Option::or (assume_specification)"],
     assumptions=["rules are well-formed: a modifier value belongs to a redirect / csp / removeparam rule (parser)"],
     level_text="Verus proves, for all field values, that a rule survives NetworkFilter -> v0 serialize struct -> (position-wise wire) -> v0 deserialize struct -> NetworkFilter field by field; that the "
                "Serialize and Deserialize structs list the same fields in the same order (computed from the struct text each run); and that every component of the blocker and the cosmetic cache is wired to the "
-               "field of the same name in both directions",
-    level_note="two known findings (removeparam is not on the wire); the legacy cosmetic rule db conversion is trusted",
+               "field of the same name in both directions; and, on the real conversion code, that the legacy cosmetic rule db round trip preserves, for every lookup hash, the hide, unhide and scriptlet-exception buckets exactly "
+               "and the scriptlet-injection texts in order",
+    level_note="three known findings: removeparam is not on the wire (two obligations), and the permission of a scoped scriptlet injection is not on the wire (witness replay)",
     design_ref="DESIGN.md section 4, C08",
 )
 
